@@ -112,6 +112,7 @@ def _set_form(form, s):
 def one_command(st: int, m: int, form: int, s: int) -> bool:
     """
     pre: 0 <= st <= 2 and 0 <= m <= 4 and 0 <= form <= 2 and 0 <= s <= 8
+    pre: core.PARAMS.get("st") is None or st == core.PARAMS["st"]
     post: _
     """
     return held(_one_command, locals())
@@ -258,9 +259,14 @@ def _proxy_run(sel):
 
 def jobs(tier):
     js = []
-    T = 300 if tier == "quick" else 900
+    T = 600 if tier == "quick" else 900
     for kind in KINDS:
-        js.append({"name": f"one_command[{kind}]", "fn": "one_command", "params": {"kind": kind, "n": 2}, "timeout": T, "per_path": 90, "unblock": UNBLOCK})
+        if KINDS[kind][1] and KINDS[kind][2]:
+            # message set and mailbox operand: split on the session state
+            for st in (0, 1, 2):
+                js.append({"name": f"one_command[{kind},st={st}]", "fn": "one_command", "params": {"kind": kind, "n": 2, "st": st}, "timeout": T, "per_path": 90, "unblock": UNBLOCK})
+        else:
+            js.append({"name": f"one_command[{kind}]", "fn": "one_command", "params": {"kind": kind, "n": 2}, "timeout": T, "per_path": 90, "unblock": UNBLOCK})
     js.append({"name": "proxy_run", "fn": "proxy_run", "params": {}, "timeout": T, "per_path": 90, "unblock": UNBLOCK})
     if tier == "thorough":
         for kind in KINDS:
